@@ -8,7 +8,7 @@ EXTENDS RebalanceProps, TLC, Json, IOUtils, SequencesExt
 
 Pairs == ndJsonDeserialize("pairs.ndjson")
 Idx   == DOMAIN Pairs
-PropIds == {"C01", "C04", "C05", "C07", "C08"}
+PropIds == {"C01", "C03", "C04", "C05", "C07", "C08"}
 
 Viol ==
   UNION { LET a == All(Pairs[k].in, Pairs[k].out)
@@ -18,6 +18,7 @@ Viol ==
 \* non-vacuity: on how many distinct inputs is the antecedent of each property exercised
 NT(p, i, o) ==
   CASE p = "C01" -> \E k \in Sh(i) : InSync(i, k) /\ Reported(i, k) \cap ActiveSet(i) # {}
+    [] p = "C03" -> UnscrapedHealthy(i) # {}
     [] p = "C04" -> \E k \in Sh(i) : New(i, o, k) # {}
     [] p = "C05" -> C05_NonTrivial(i, o)
     [] p = "C07" -> Len(o.scales) > 0
